@@ -23,27 +23,37 @@ def build_real(scratch, release):
     V.run(["cargo", "build", "--offline", "--bin", "mscript", "--target-dir", os.path.join(scratch.dir, "target-cli")] + prof,
           cwd=scratch.repo, env=V.env_offline({"RUSTFLAGS": "-Awarnings"}), timeout=3600)
     shutil.copy(os.path.join(V.VERIF, "native", "ffi_echo.rs"), os.path.join(scratch.repo, "ffi", "src", "lib.rs"))
-    V.run(["cargo", "build", "--offline", "--target-dir", os.path.join(scratch.dir, "target-ffi")] + prof,
-          cwd=os.path.join(scratch.repo, "ffi"), env=V.env_offline({"RUSTFLAGS": "-Awarnings"}), timeout=3600)
     sub = "release" if release else "debug"
+    libs = {}
+    for tag in ("A", "B"):
+        # two builds of the same library (same symbols, different tag in their output)
+        V.run(["cargo", "build", "--offline", "--target-dir", os.path.join(scratch.dir, "target-ffi-" + tag)] + prof,
+              cwd=os.path.join(scratch.repo, "ffi"), env=V.env_offline({"RUSTFLAGS": "-Awarnings", "VERIF_FFI_TAG": tag}), timeout=3600)
+        libs[tag] = os.path.join(scratch.dir, "target-ffi-" + tag, sub, "libffi.so")
     exe = os.path.join(scratch.dir, "target-cli", sub, "mscript")
-    lib = os.path.join(scratch.dir, "target-ffi", sub, "libffi.so")
-    if not (os.path.exists(exe) and os.path.exists(lib)):
+    lib = libs
+    if not (os.path.exists(exe) and all(os.path.exists(x) for x in libs.values())):
         raise V.Inconclusive("CLI or FFI test library not built")
     log("  real CLI and FFI test library (%s) built in %.1fs" % (sub, time.time() - t))
     return exe, lib
 
 
-def real_call(scratch, exe, lib, func, args, after_marker=True):
-    """execute a bytecode program that pushes `args`, calls lib::func through call_lib and prints the result and a marker"""
+def real_call(scratch, exe, lib, func, args, calls=None):
+    """execute a bytecode program that, for each (lib, func, args) call, pushes the arguments (ints, or (instruction, text)
+    pairs), calls lib::func through call_lib and prints the result; finally prints a marker"""
     d = os.path.join(scratch.dir, "ffi-run")
     shutil.rmtree(d, ignore_errors=True)
     os.makedirs(d)
     lines = ["function __module__"]
-    for a in args:
-        lines.append('\tmake_int "%d"' % a)
-    lines.append('\tcall_lib "%s" "%s"' % (lib, func))
-    lines += ['\tprintn "*"', "\tvoid", '\tmake_str "after"', '\tprintn "*"', "\tvoid", "\tret_mod", "end", ""]
+    for lib_, func_, args_ in (calls or [(lib, func, args)]):
+        for a in args_:
+            if isinstance(a, tuple):
+                lines.append('\t%s "%s"' % a)
+            else:
+                lines.append('\tmake_int "%d"' % a)
+        lines.append('\tcall_lib "%s" "%s"' % (lib_, func_))
+        lines += ['\tprintn "*"', "\tvoid"]
+    lines += ['\tmake_str "after"', '\tprintn "*"', "\tvoid", "\tret_mod", "end", ""]
     src = os.path.join(d, "p.transpiled.mmm")
     with open(src, "w") as f:
         f.write("\n".join(lines))
@@ -55,14 +65,15 @@ def real_call(scratch, exe, lib, func, args, after_marker=True):
     return {"exit": p.returncode, "stdout": p.stdout.strip().splitlines(), "stderr": p.stderr[-600:], "panicked": p.returncode == 101 or "panicked at" in p.stderr}
 
 
-def real_suite(scratch, exe, lib):
+def real_suite(scratch, exe, libs):
     """the observable contract of a foreign call, on real runs: -> (runs, list of deviations)"""
     dev, runs = [], 0
-    for n in range(4):
+    lib = libs["A"]
+    for n in range(5):
         args = [7 + 2 * i for i in range(n)]
         r = real_call(scratch, exe, lib, "echo", args)
         runs += 1
-        want = ["ECHO n=%d args=[%s]" % (n, ",".join(map(str, args))), "42", "after"]
+        want = ["ECHO[A] n=%d args=[%s]" % (n, ",".join(map(str, args))), "42", "after"]
         if r["exit"] != 0 or r["stdout"] != want:
             dev.append(("echo(%r)" % args, "expected %r exit 0" % want, r))
     for func, needle in (("fail", "boom from foreign code"), ("no_such_symbol", "Could not find symbol")):
@@ -70,6 +81,23 @@ def real_suite(scratch, exe, lib):
         runs += 1
         if r["exit"] == 0 or r["panicked"] or needle not in r["stderr"] or "after" in r["stdout"]:
             dev.append((func, "expected a run-time error carrying %r, nothing executed afterwards" % needle, r))
+    # every kind of value comes back unchanged
+    for ins, text, shown in (("make_int", "5", "5"), ("make_byte", "0b101", "0b101"), ("make_bool", "true", "true"), ("make_str", "hey", "hey"),
+                             ("make_float", "2.5", "2.5"), ("make_bigint", "123456789012", "123456789012")):
+        r = real_call(scratch, exe, lib, "first", [(ins, text)])
+        runs += 1
+        if r["exit"] != 0 or len(r["stdout"]) != 2 or r["stdout"][1] != "after" or r["stdout"][0].lower().lstrip("b") not in (shown.lower().lstrip("b"), str(int(shown, 2)) if shown.startswith("0b") else shown):
+            dev.append(("first(%s %s)" % (ins, text), "expected the argument to come back as the result", r))
+    # the same symbol in two libraries, one after the other: each call reaches the library it names
+    r = real_call(scratch, exe, None, None, None, calls=[(libs["A"], "echo", [1]), (libs["B"], "echo", [2]), (libs["A"], "echo", [3])])
+    runs += 1
+    want = ["ECHO[A] n=1 args=[1]", "42", "ECHO[B] n=1 args=[2]", "42", "ECHO[A] n=1 args=[3]", "42", "after"]
+    if r["exit"] != 0 or r["stdout"] != want:
+        dev.append(("echo in library A, B, A", "expected %r" % want, r))
+    r = real_call(scratch, exe, None, None, None, calls=[(libs["A"], "echo", [1]), (os.path.join(scratch.dir, "no-such-library.so"), "echo", [2])])
+    runs += 1
+    if r["exit"] == 0 or r["panicked"] or "Could not open FFI Library" not in r["stderr"] or "after" in r["stdout"]:
+        dev.append(("missing library after a successful call of the same symbol", "expected a run-time error naming the library", r))
     r = real_call(scratch, exe, os.path.join(scratch.dir, "no-such-library.so"), "echo", [1])
     runs += 1
     if r["exit"] == 0 or r["panicked"] or "Could not open FFI Library" not in r["stderr"] or "after" in r["stdout"]:
@@ -99,15 +127,22 @@ def check(scratch, a, t0):
     info = {"functions": {}, "models": {}, "real_runs": {}}
     timeout_ms = 60000 if a.tier == "quick" else 180000
     bad = []
+    gave_up = None
     for release in (False, True):
         profile = "release" if release else "dev"
         oc = not release
-        fk = F.FfiKernels(mir.MirFile(scratch.mir_dump("bytecode", oc)), oc, scratch.repo, seed=V.seed())
-        info["functions"][profile] = fk.encoded_functions()
-        for n in range(F.NMAX.get(a.tier, 3) + 1):
-            bad += [(profile,) + b for b in F.check_call_lib(fk, n, profile, qs, timeout_ms, V.seed())]
-            bad += [(profile,) + b for b in F.check_plj(fk, n, profile, qs, timeout_ms, V.seed())]
-        info["models"][profile] = sorted(fk.ex.stats["models_used"])
+        try:
+            fk = F.FfiKernels(mir.MirFile(scratch.mir_dump("bytecode", oc)), oc, scratch.repo, seed=V.seed())
+            info["functions"][profile] = fk.encoded_functions()
+            for n in range(F.NMAX.get(a.tier, 3) + 1):
+                bad += [(profile,) + b for b in F.check_call_lib(fk, n, profile, qs, timeout_ms, V.seed())]
+                bad += [(profile,) + b for b in F.check_plj(fk, n, profile, qs, timeout_ms, V.seed())]
+            info["models"][profile] = sorted(fk.ex.stats["models_used"])
+        except (sym.Inconclusive, mir.MirError) as e:
+            # the engine met code it cannot interpret: never a pass - but the real foreign calls below are still run and reported
+            gave_up = str(e)[:400].replace("\n", " ")
+            log("  [%s] engine gave up: %s" % (profile, gave_up))
+            break
         log("  [%s] %d obligations so far, %d candidate findings" % (profile, qs.obligations, len(bad)))
     # real foreign calls: validation of the stub contract / replay of findings
     deviations = {}
@@ -118,6 +153,11 @@ def check(scratch, a, t0):
         deviations["release" if release else "dev"] = dev
         log("  real foreign calls (%s): %d runs, %d deviations" % ("release" if release else "dev", runs, len(dev)))
     alldev = sum(deviations.values(), [])
+    if gave_up:
+        for d in alldev[:5]:
+            log("REAL DEVIATION:", d[0], d[1], json.dumps(d[2])[:400])
+        print("INCONCLUSIVE property=C19 reason=%s real_deviations=%d" % (gave_up, len(alldev)))
+        return V.EXIT_INCONCLUSIVE
     known = V.known_index("C19")
     code = V.EXIT_OK
     new = []
